@@ -21,57 +21,234 @@ def dispatchEff (a : Auction) : Option GEff :=
   | .finished => none
   | .cancelled => none
 
+/-- the loop of `BeginBlocker`, with the loop-carried effect list generalised -/
+private theorem beginBlocker_loop (auctions : List Auction) (effs : List GEff) :
+    Gen.BeginBlocker.loop1 auctions false effs = Loop.done (false, effs ++ auctions.filterMap dispatchEff) := by
+  induction auctions generalizing effs with
+  | nil => simp [BeginBlocker.loop1]
+  | cons a rest ih =>
+    unfold BeginBlocker.loop1
+    cases hs : a.status <;> simp [ih, dispatchEff, hs]
+
 /-- **BeginBlocker**: every auction, in store order, dispatched on its status; never an error
     of its own (the five statuses are all there are) -/
 theorem tie_BeginBlocker (auctions : List Auction) :
     Gen.BeginBlocker auctions = (false, auctions.filterMap dispatchEff) := by
-  sorry
+  simp [BeginBlocker, beginBlocker_loop]
+
+/-! ### helpers: the monad, and "bank calls and hooks do not touch the views" -/
+
+@[simp] private theorem ok_bind {α β : Type} (a : α) (f : α → M β) : ((Except.ok a : M α) >>= f) = f a := rfl
+
+@[simp] private theorem error_bind {α β : Type} (e : Fail) (f : α → M β) :
+    ((Except.error e : M α) >>= f) = Except.error e := rfl
+
+private theorem bind_ok {α β : Type} {x : M α} {f : α → M β} {b : β} (h : (x >>= f) = .ok b) :
+    ∃ a, x = .ok a ∧ f a = .ok b := by
+  cases x with
+  | error e => simp [bind, Except.bind] at h
+  | ok a => exact ⟨a, rfl, h⟩
+
+private theorem view_of {c : Ctx} {aid : Nat} {v : AView} (hv : c.s.views[aid]? = some v) : c.view aid = pure v :=
+  view_ok_iff.mpr hv
+
+private theorem bankCall_views {c c' : Ctx} {k : XKind} {src dst : Addr} {coins : List Coin}
+    (h : c.bankCall k src dst coins = .ok c') : c'.s.views = c.s.views := by
+  obtain ⟨_, b, _, rfl⟩ := bankCall_ok h
+  rfl
+
+private theorem hook_views {c c' : Ctx} {name : String} {args : List String}
+    (h : c.hook name args = .ok c') : c'.s.views = c.s.views := by
+  rw [(hook_ok h).1]
+
+private theorem payOut_views (src : Addr) (d : Denom) (l : List (Acc × Int)) {c c' : Ctx}
+    (h : payOut c src d l = .ok c') : c'.s.views = c.s.views := by
+  induction l generalizing c with
+  | nil => simp [payOut, pure, Except.pure] at h; subst h; rfl
+  | cons p rest ih =>
+    obtain ⟨u, amt⟩ := p
+    unfold payOut at h
+    by_cases h0 : amt = 0
+    · simp only [h0, if_true] at h; exact ih h
+    · simp only [h0, if_false] at h
+      obtain ⟨coins, _, h⟩ := bind_ok h
+      obtain ⟨c1, hb, h⟩ := bind_ok h
+      rw [ih h, bankCall_views hb]
+
+private theorem allocateSellingCoin_views {c c' : Ctx} {a : Auction} {mi : MInfo}
+    (h : allocateSellingCoin c a mi = .ok c') : c'.s.views = c.s.views := by
+  unfold allocateSellingCoin at h
+  obtain ⟨c1, hh, h⟩ := bind_ok h
+  rw [payOut_views _ _ _ h, hook_views hh]
+
+private theorem refundRemainingSellingCoin_views {c c' : Ctx} {a : Auction}
+    (h : refundRemainingSellingCoin c a = .ok c') : c'.s.views = c.s.views := by
+  unfold refundRemainingSellingCoin at h
+  obtain ⟨coins, _, h⟩ := bind_ok h
+  exact bankCall_views h
+
+private theorem refundPayingCoin_views {c c' : Ctx} {a : Auction} {mi : MInfo}
+    (h : refundPayingCoin c a mi = .ok c') : c'.s.views = c.s.views :=
+  payOut_views _ _ _ h
+
+private theorem setView_self {c : Ctx} {aid : Nat} {v : AView} (hv : c.s.views[aid]? = some v) :
+    c.setView aid v = c := by
+  unfold Ctx.setView
+  have : c.s.views.set aid v = c.s.views := by
+    apply List.ext_getElem?
+    intro i
+    by_cases hi : i = aid
+    · subst hi; simp [List.getElem?_set]; grind
+    · simp [List.getElem?_set]; grind
+  rw [this]
+
+private theorem setView_get {c : Ctx} {aid : Nat} {v v' : AView} (hv : c.s.views[aid]? = some v) :
+    (c.setView aid v').s.views[aid]? = some v' := by
+  have hlt : aid < c.s.views.length := by
+    rcases Nat.lt_or_ge aid c.s.views.length with h | h
+    · exact h
+    · rw [List.getElem?_eq_none h] at hv; cases hv
+  simp [Ctx.setView, hlt]
+
+private theorem runSettlePlan_false (c : Ctx) (aid : Nat) (es : List GEff) :
+    runSettlePlan c aid (false, es) = runSettle aid es c := by
+  simp [runSettlePlan]
+
+private theorem runSettle_calcBatch (c : Ctx) (aid : Nat) (v : AView) (hv : c.s.views[aid]? = some v)
+    (mi : MInfo) (hmi : calcBatch v.a v.bids v.allowed = some mi) (a : Auction) (es : List GEff) :
+    runSettle aid (⟨.calcBatch, [.auction a]⟩ :: es) c =
+      runSettle aid es (c.setView aid { v with bids := v.bids.map (fun b => { b with matched := mi.matchedIds.contains b.id }), matchedLen := mi.matchedLen }) := by
+  simp only [runSettle_cons, applySettle, view_of hv, pure_bind, hmi]
+
+private theorem runSettle_extendRound (c : Ctx) (aid : Nat) (a : Auction) :
+    runSettle aid [⟨.extendRound, [.auction a]⟩] c = extendRound c aid := by
+  simp only [runSettle_cons, runSettle_nil, applySettle, bind_pure]
 
 /-- … which is the dispatch of the model's `blockStep`: -/
 theorem tie_ExecuteStandByStatus (c : Ctx) (aid : Nat) (v : AView) (hv : c.s.views[aid]? = some v)
     (hst : v.a.status = .standby) :
     blockStep c aid = Go.runSettlePlan c aid (Gen.ExecuteStandByStatus v.a c.s.now) := by
-  sorry
+  unfold blockStep ExecuteStandByStatus
+  simp only [Ctx.view, hv, tie_ShouldAuctionStarted, bind, Except.bind, hst]
+  by_cases h : v.a.startTime ≤ c.s.now <;>
+    simp [h, runSettlePlan, applySettle, Ctx.view, hv, bind, Except.bind, pure, Except.pure]
 
 theorem tie_ExecuteStartedStatus (c : Ctx) (aid : Nat) (v : AView) (hv : c.s.views[aid]? = some v)
     (hst : v.a.status = .started) (hne : v.a.endTimes ≠ []) :
     blockStep c aid = Go.runSettlePlan c aid (Gen.ExecuteStartedStatus v.a c.s.now) := by
-  sorry
+  unfold blockStep ExecuteStartedStatus
+  simp only [Ctx.view, hv, tie_ShouldAuctionClosed _ _ hne, bind, Except.bind, hst, Auction.lastEnd]
+  obtain ⟨e, he⟩ : ∃ e, v.a.endTimes.getLast? = some e := by
+    cases hl : v.a.endTimes.getLast? with
+    | none => simp at hl; exact absurd hl hne
+    | some e => exact ⟨e, rfl⟩
+  simp only [he, Option.getD_some]
+  by_cases h : e ≤ c.s.now <;> cases hty : v.a.type <;>
+      simp [h, runSettlePlan, applySettle, bind, Except.bind, pure, Except.pure]
+  · cases closeFixed c aid <;> rfl
+  · cases closeBatch c aid <;> rfl
 
 theorem tie_ExecuteVestingStatus (c : Ctx) (aid : Nat) (v : AView) (hv : c.s.views[aid]? = some v)
     (hst : v.a.status = .vesting) :
     blockStep c aid = releaseVesting c aid := by
-  sorry
+  unfold blockStep
+  simp [Ctx.view, hv, hst, bind, Except.bind]
 
 theorem tie_blockStep_terminal (c : Ctx) (aid : Nat) (v : AView) (hv : c.s.views[aid]? = some v)
     (hst : v.a.status = .finished ∨ v.a.status = .cancelled) :
     blockStep c aid = pure c ∧ dispatchEff v.a = none := by
-  sorry
+  unfold blockStep dispatchEff
+  rcases hst with hst | hst <;> simp [Ctx.view, hv, hst, bind, Except.bind]
 
 theorem tie_publishedMatchedPrice (mi : MInfo) :
     Gen.publishedMatchedPrice mi = if mi.total > 0 then mi.price else 0 := by
-  sorry
+  unfold publishedMatchedPrice
+  grind
 
 /-- **CloseFixedPriceAuction** -/
 theorem tie_CloseFixedPriceAuction (c : Ctx) (aid : Nat) (v : AView) (hv : c.s.views[aid]? = some v) :
     closeFixed c aid = Go.runSettlePlan c aid (Gen.CloseFixedPriceAuction v.a (calcFixed v.a v.bids)) := by
-  sorry
+  unfold closeFixed CloseFixedPriceAuction
+  simp only [view_of hv, runSettlePlan, List.nil_append, List.cons_append, runSettle_cons, runSettle_nil,
+    applySettle, bind_assoc, pure_bind, bind_pure]
+  cases h1 : allocateSellingCoin c v.a (calcFixed v.a v.bids) with
+  | error e => rfl
+  | ok c1 =>
+    simp only [ok_bind]
+    cases h2 : refundRemainingSellingCoin c1 v.a with
+    | error e => rfl
+    | ok c2 =>
+      simp only [ok_bind]
+      have hv2 : c2.s.views[aid]? = some v := by
+        rw [refundRemainingSellingCoin_views h2, allocateSellingCoin_views h1]; exact hv
+      simp only [view_of hv2, pure_bind, setView_self hv2]
+      cases applyVestingSchedules c2 aid <;> rfl
+
+/-- the settling steps shared by two branches of `CloseBatchAuction` -/
+private theorem settleBatch_tie (c : Ctx) (aid : Nat) (v : AView) (hv : c.s.views[aid]? = some v) (mi : MInfo) :
+    settleBatch c aid mi = runSettle aid
+      [⟨.allocateSellingCoin, [.auction v.a, .minfo mi]⟩, ⟨.refundRemainingSellingCoin, [.auction v.a]⟩,
+       ⟨.refundPayingCoin, [.auction v.a, .minfo mi]⟩,
+       ⟨.applyVestingSchedules, [.auction { v.a with matchedPrice := publishedMatchedPrice mi }]⟩] c := by
+  unfold settleBatch
+  simp only [view_of hv, runSettle_cons, runSettle_nil, applySettle, pure_bind, bind_pure,
+    tie_publishedMatchedPrice]
+  cases h1 : allocateSellingCoin c v.a mi with
+  | error e => rfl
+  | ok c1 =>
+    simp only [ok_bind]
+    cases h2 : refundRemainingSellingCoin c1 v.a with
+    | error e => rfl
+    | ok c2 =>
+      simp only [ok_bind]
+      cases h3 : refundPayingCoin c2 v.a mi with
+      | error e => rfl
+      | ok c3 =>
+        simp only [ok_bind]
+        have hv3 : c3.s.views[aid]? = some v := by
+          rw [refundPayingCoin_views h3, refundRemainingSellingCoin_views h2, allocateSellingCoin_views h1]
+          exact hv
+        simp only [view_of hv3, pure_bind]
 
 /-- **CloseBatchAuction**: the round limit, the "nothing to compare with" case and the
     anti-sniping rule `1 − Quo(curr, last) ≥ rate`, each followed by the same settling steps -/
 theorem tie_CloseBatchAuction (c : Ctx) (aid : Nat) (v : AView) (hv : c.s.views[aid]? = some v)
     (hty : v.a.type = .batch) (mi : MInfo) (hmi : calcBatch v.a v.bids v.allowed = some mi) :
     closeBatch c aid = Go.runSettlePlan c aid (Gen.CloseBatchAuction v.a v.matchedLen mi) := by
-  sorry
+  have hok : decide (v.a.type = AType.batch) = true := by simp [hty]
+  unfold closeBatch CloseBatchAuction
+  simp only [view_of hv, hmi, hok, pure_bind, Bool.not_true, Bool.false_eq_true, if_false,
+    List.nil_append, List.cons_append]
+  by_cases h1 : v.a.maxExt + 1 = v.a.endTimes.length
+  · have h1' : ((v.a.maxExt : Int) + 1 = (v.a.endTimes.length : Int)) := by omega
+    simp only [h1, h1', if_true, decide_true, runSettlePlan_false]
+    rw [runSettle_calcBatch c aid v hv mi hmi, settleBatch_tie _ aid _ (setView_get hv)]
+  · have h1' : ¬ ((v.a.maxExt : Int) + 1 = (v.a.endTimes.length : Int)) := by omega
+    simp only [h1, h1', if_false, decide_false, Bool.false_eq_true]
+    by_cases h2 : v.matchedLen = 0
+    · simp only [h2, if_true, decide_true, runSettlePlan_false]
+      rw [runSettle_calcBatch c aid v hv mi hmi, runSettle_extendRound]
+    · simp only [h2, if_false, decide_false, Bool.false_eq_true]
+      have h3 : shouldExtend mi.matchedLen v.matchedLen v.a.rate =
+          decide (Dec.one - (Dec.ofInt mi.matchedLen).quo (Dec.ofInt v.matchedLen) ≥ v.a.rate) := rfl
+      rw [h3]
+      by_cases h4 : Dec.one - (Dec.ofInt mi.matchedLen).quo (Dec.ofInt v.matchedLen) ≥ v.a.rate
+      · simp only [h4, if_true, decide_true, runSettlePlan_false]
+        rw [runSettle_calcBatch c aid v hv mi hmi, runSettle_extendRound]
+      · simp only [h4, if_false, decide_false, Bool.false_eq_true, runSettlePlan_false]
+        rw [runSettle_calcBatch c aid v hv mi hmi, settleBatch_tie _ aid _ (setView_get hv)]
 
 /-- **ExtendRound** -/
 theorem tie_ExtendRound (c : Ctx) (aid : Nat) (v : AView) (hv : c.s.views[aid]? = some v) (hne : v.a.endTimes ≠ []) :
     extendRound c aid = Go.runSettlePlan c aid (Gen.ExtendRound v.a c.s.params) := by
-  sorry
+  unfold extendRound ExtendRound
+  simp [runSettlePlan, applySettle, Ctx.view, hv, bind, Except.bind, pure, Except.pure, index_last hne,
+    Auction.lastEnd, Go.addDate]
 
 /-- **RefundRemainingSellingCoin** -/
 theorem tie_RefundRemainingSellingCoin (c : Ctx) (a : Auction) :
     refundRemainingSellingCoin c a = Go.runSettlePlan c a.id (Gen.RefundRemainingSellingCoin a c.s.bank) := by
-  sorry
+  unfold refundRemainingSellingCoin RefundRemainingSellingCoin
+  simp [runSettlePlan, applySettle, dstOf, Ctx.bal]
 
 end Fundraising
